@@ -480,14 +480,15 @@ def run(tier):
                 drift += 1
     chk.extra["model_drift_replay"] = drift
     # (B) anti-vacuity on the judged inputs
+    # (a vacuity guard never masks a violation: with violations found the run is reported as such, exit 1)
     missing = [o for o in OPS if o not in seen_ops]
-    if missing:
+    if missing and not chk.violations:
         raise vlib.ToolError("vacuous: calls never judged inside the domain: %s" % missing)
     cl = input_classes(recs)
     need = {"contents:ref", "contents:array", "contents:refToArray", "contents:missing", "resources:own",
             "resources:inherited-or-none", "annots", "pages>=3", "nested-tree", "loaded", "loaded-xref-stream", "compressed-stream",
             "program>=20"} | {"op:" + o for o in OPS}
-    if not need <= cl:
+    if not need <= cl and not chk.violations:
         raise vlib.ToolError("vacuous recorded set: no input of class %s" % sorted(need - cl))
     chk.extra["input_classes"] = sorted(c for c in cl if not c.startswith("op:"))
     # samples
